@@ -1,14 +1,35 @@
 #!/bin/bash
-# sensitivity regression: every stored seeded change must still be reported by the quick check of its property
+# sensitivity regression: every stored seeded change must still be reported by the quick check of (one of) the properties
+# recorded in its meta.json; every stored behaviour-preserving refactor (seeded/benign) must leave every check silent.
+# usage: eval_all_seeds.sh [id-prefix]      e.g. eval_all_seeds.sh C03
 cd /verif
 fail=0
-for d in seeded/*/; do
-  id=$(basename $d); pid=${id%%-*}
-  out=$(RUN_SUITE=0 ./eval_seed.sh /verif/${d}patch.diff quick $pid 2>&1)
+for d in seeded/${1:-}*/; do
+  id=$(basename $d)
+  [ "$id" = "benign" ] && continue
+  pids=$(python3 - "$d" <<'PY'
+import json,re,sys
+m=json.load(open(sys.argv[1]+'meta.json'))
+ids=[]
+for s in m['detected_by']:
+    for x in re.findall(r'\bC\d\d\b', s.split('quick')[0] if 'quick' in s else s):
+        if x not in ids: ids.append(x)
+print(' '.join(ids[:2]) if ids else m['property'])
+PY
+)
   expect=$(python3 -c "import json;print(1 if json.load(open('/verif/${d}meta.json'))['detected_by'] else 0)")
-  if echo "$out" | grep -q "^== $pid rc=1"; then echo "$id detected"
+  out=$(RUN_SUITE=0 ./eval_seed.sh /verif/${d}patch.diff quick $pids 2>&1)
+  if echo "$out" | grep -q "^== C[0-9][0-9] rc=1"; then echo "$id detected ($(echo "$out" | grep '^== ' | grep 'rc=1' | awk '{print $2}' | tr '\n' ' '))"
   elif [ "$expect" = "0" ]; then echo "$id not detected (recorded as outside the claimed properties)"
   else echo "$id MISSED"; echo "$out" | tail -5; fail=1; fi
 done
+if [ -z "$1" ] || [ "$1" = "benign" ]; then
+  all=$(python3 -c "import json; print(' '.join(c['property_id'] for c in json.load(open('MANIFEST.json'))['checks']))")
+  for d in seeded/benign/*/; do
+    out=$(RUN_SUITE=0 ./eval_seed.sh /verif/${d}patch.diff quick $all 2>&1)
+    if echo "$out" | grep -qE "^== C[0-9][0-9] rc=[12]"; then echo "$(basename $d) FALSE ALARM"; echo "$out" | grep -E "^== .* rc=[12]|VIOLATION" | head -5; fail=1
+    else echo "$(basename $d) silent"; fi
+  done
+fi
 git -C /repo status --short | head -3
 exit $fail
